@@ -1781,7 +1781,14 @@ where
                 let ta_opt = Self::get_topic_alias_from_props(packet.props());
                 if packet.topic_name().is_empty() {
                     // Topic name is empty, must validate topic alias
-                    let topic_opt = self.validate_topic_alias(ta_opt);
+                    // (looked up without refreshing its least-recently-used position: the
+                    // packet can still be refused below, and a refused packet leaves no trace)
+                    let topic_opt = ta_opt
+                        .filter(|ta| self.validate_topic_alias_range(*ta))
+                        .and_then(|ta| {
+                            let topic_alias_send = self.topic_alias_send.as_ref()?;
+                            topic_alias_send.peek(ta).map(|topic| topic.to_string())
+                        });
                     if topic_opt.is_none() {
                         events.push(GenericEvent::NotifyError(MqttError::PacketNotAllowedToSend));
                         if self.pid_man.is_used_id(packet_id) {
@@ -1806,6 +1813,19 @@ where
                             return events;
                         }
                     };
+                    // The stored copy carries the full topic instead of the alias. If it exceeds
+                    // the peer's Maximum Packet Size it could never be retransmitted: refuse the
+                    // packet now instead of dropping it silently when the session is resumed.
+                    if !self.validate_maximum_packet_size_send(store_packet.size()) {
+                        events.push(GenericEvent::NotifyError(MqttError::PacketTooLarge));
+                        if self.pid_man.is_used_id(packet_id) {
+                            self.pid_man.release_id(packet_id);
+                            events.push(GenericEvent::NotifyPacketIdReleased(packet_id));
+                        }
+                        return events;
+                    }
+                    // Accepted: the alias has been used (LRU updated here)
+                    let _ = self.validate_topic_alias(ta_opt);
                     self.store.add(store_packet.try_into().unwrap()).unwrap();
                 } else {
                     // Topic name is not empty, remove topic alias if present
